@@ -18,7 +18,8 @@ From GU Require Import C12.Conc C12.MC C12.Facts C12.Gen.
 (** * Common vocabulary *)
 
 Inductive outcome := ONil | OErr.                        (* what the action returns: nil / its own error *)
-Inductive res := RNil | RErr | RTimeout | RCancelled.    (* what the runner returns (error KIND) *)
+Inductive res := RNil | RErr | RTimeout | RCancelled    (* what the runner returns (error KIND) *)
+  | ROther.   (* an error that is neither the action's nor of the timeout / cancelled kind *)
 Definition res_of (o : outcome) : res := match o with ONil => RNil | OErr => RErr end.
 
 (* Scenario class of the action (restrictions of the environment; [Near]+[a_looks=true] is the unrestricted one).
@@ -35,7 +36,7 @@ Inductive apc := ARun | ARet | ASent.
 
 Definition outcome_eqb a b := match a, b with ONil, ONil | OErr, OErr => true | _, _ => false end.
 Definition res_eqb a b :=
-  match a, b with RNil, RNil | RErr, RErr | RTimeout, RTimeout | RCancelled, RCancelled => true | _, _ => false end.
+  match a, b with RNil, RNil | RErr, RErr | RTimeout, RTimeout | RCancelled, RCancelled | ROther, ROther => true | _, _ => false end.
 Definition own_eqb a b :=
   match a, b with Early, Early | Near, Near | Late, Late | Never, Never => true | _, _ => false end.
 Definition apc_eqb a b := match a, b with ARun, ARun | ARet, ARet | ASent, ASent => true | _, _ => false end.
@@ -139,16 +140,30 @@ Definition t_observe (s : tstate) : option tobs :=
 (* ===================================================================================================== *)
 (** * RunActionWithTimeoutAndCancelStore and RunActionWithTimeoutAndContext (parameterised by the generated facts) *)
 
-Inductive pst := PLive | PCanc | PDead.          (* context state: live / Canceled / DeadlineExceeded *)
-Definition pst_eqb a b := match a, b with PLive, PLive | PCanc, PCanc | PDead, PDead => true | _, _ => false end.
-Definition kind_of (p : pst) : res := match p with PDead => RTimeout | _ => RCancelled end.  (* ConvertContextError *)
+(* context state: live / Canceled / DeadlineExceeded; PCancC / PDeadC: the same reasons, but ended (by the PARENT's
+   canceller, inherited by the children) with a custom CAUSE that is not itself of that kind *)
+Inductive pst := PLive | PCanc | PDead | PCancC | PDeadC.
+Definition pst_eqb a b :=
+  match a, b with PLive, PLive | PCanc, PCanc | PDead, PDead | PCancC, PCancC | PDeadC, PDeadC => true | _, _ => false end.
+Definition base (p : pst) : pst := match p with PCancC => PCanc | PDeadC => PDead | x => x end.   (* ctx.Err() *)
+(* ConvertContextError applied to what DetermineContextError reads (generated fact): ctx.Err() gives the kind whatever
+   the cause; context.Cause(ctx) gives the raw cause *)
+Definition kind_of (f : facts) (p : pst) : res :=
+  match p with
+  | PDead => RTimeout
+  | PDeadC => match f_ctx_err_src f with SrcErr => RTimeout | SrcCause => ROther end
+  | PCancC => match f_ctx_err_src f with SrcErr => RCancelled | SrcCause => ROther end
+  | _ => RCancelled
+  end.
 Definition is_live (p : pst) : bool := pst_eqb p PLive.
-Definition ctx_err (p : pst) : res := if is_live p then RNil else kind_of p.   (* DetermineContextError(ctx) *)
+Definition ctx_err (f : facts) (p : pst) : res := if is_live p then RNil else kind_of f p.   (* DetermineContextError(ctx) *)
 
 (* events of the environment during the call: the parent context is cancelled / reaches its deadline, or somebody
    else calls store.Cancel() on the store handed to ...AndCancelStore *)
-Inductive ev := EvPCancel | EvPDeadline | EvExt.
-Definition ev_eqb a b := match a, b with EvPCancel, EvPCancel | EvPDeadline, EvPDeadline | EvExt, EvExt => true | _, _ => false end.
+Inductive ev := EvPCancel | EvPDeadline | EvExt
+  | EvPCancelC | EvPDeadlineC.     (* ... with a custom cause *)
+Definition ev_eqb a b :=
+  match a, b with EvPCancel, EvPCancel | EvPDeadline, EvPDeadline | EvExt, EvExt | EvPCancelC, EvPCancelC | EvPDeadlineC, EvPDeadlineC => true | _, _ => false end.
 
 Record xcfg := mkX {
   x_store : bool;          (* true = ...AndCancelStore (caller's store), false = ...AndContext (private store, deferred Cancel) *)
@@ -229,7 +244,7 @@ Definition x_step (f : facts) (c : xcfg) (s : xstate) (l : xlabel) : option xsta
       match pc with
       | C0 => if negb (f_x_initial_check f) || is_live par
               then Some (mkXS C1 act saw ch fired par evd tctx ht ha cd ext cret)
-              else Some (mkXS (CDone (kind_of par)) act saw ch fired par evd tctx ht ha cd ext false)
+              else Some (mkXS (CDone (kind_of f par)) act saw ch fired par evd tctx ht ha cd ext false)
       | C1 => (* a child of an ended parent is born ended, with the parent's error *)
               Some (mkXS C2 act saw ch fired par evd par true ha cd ext cret)
       | C2 => Some (mkXS C3 act saw ch fired par evd tctx ht true (negb (is_live par)) ext cret)
@@ -241,9 +256,9 @@ Definition x_step (f : facts) (c : xcfg) (s : xstate) (l : xlabel) : option xsta
       | CProg (XARecvChan :: r) => if ch then Some (mkXS (CProg r) act saw false fired par evd tctx ht ha cd ext cret) else None
       | CProg (XARetTimeoutErrIfAny :: r) =>
           if is_live tctx then Some (mkXS (CProg r) act saw ch fired par evd tctx ht ha cd ext cret)
-          else Some (mkXS (CDefer (kind_of tctx)) act saw ch fired par evd tctx ht ha cd ext cret)
+          else Some (mkXS (CDefer (kind_of f tctx)) act saw ch fired par evd tctx ht ha cd ext cret)
       | CProg (XARetErr :: _) => Some (mkXS (CDefer (res_of (a_out (x_a c)))) act saw ch fired par evd tctx ht ha cd ext cret)
-      | CProg (XARetTimeoutErr :: _) => Some (mkXS (CDefer (ctx_err tctx)) act saw ch fired par evd tctx ht ha cd ext cret)
+      | CProg (XARetTimeoutErr :: _) => Some (mkXS (CDefer (ctx_err f tctx)) act saw ch fired par evd tctx ht ha cd ext cret)
       | CProg [] => None        (* falling off a branch: the translator refuses such a shape *)
       | CDefer r => (* deferred timeoutCancel(); ...AndContext: deferred store.Cancel() calls what is registered *)
           let private := negb (x_store c) && f_ctx_defer_store_cancel f in
@@ -266,9 +281,9 @@ Definition x_step (f : facts) (c : xcfg) (s : xstate) (l : xlabel) : option xsta
       then Some (mkXS pc act saw ch true par evd (if is_live tctx then PDead else tctx) ht ha cd ext cret) else None
   | XEv =>      (* the parent ends: all its existing children end with it, with its error *)
       match x_ev c with
-      | Some EvPCancel | Some EvPDeadline =>
+      | Some EvPCancel | Some EvPDeadline | Some EvPCancelC | Some EvPDeadlineC =>
           if negb evd && is_live par && negb (x_is_done s) && x_during c s then
-            let k := match x_ev c with Some EvPDeadline => PDead | _ => PCanc end in
+            let k := match x_ev c with Some EvPDeadline => PDead | Some EvPDeadlineC => PDeadC | Some EvPCancelC => PCancC | _ => PCanc end in
             Some (mkXS pc act saw ch fired k true (if ht && is_live tctx then k else tctx) ht ha (cd || ha) ext cret)
           else None
       | _ => None end
